@@ -72,7 +72,9 @@ StructErr(f) == IF f.st = "invalid" THEN {<< <<f.alias>>, "type:integer" >>}
 ValErr(v) ==
   LET own  == IF v.style = "yieldpath" /\ v.deps # {} THEN <<AliasOf(FirstDep(v))>> ELSE <<>>
       base == IF v.fld = "" THEN own ELSE <<AliasOf(v.fld)>> \o own
+  \* a "yieldpath" validator yields TWO errors under the same (scalar) path: both are reported
   IN {<< base, "validator:" \o v.name >>}
+       \cup (IF v.style = "yieldpath" /\ v.deps # {} THEN {<< base, "validator:" \o v.name \o ":2" >>} ELSE {})
 
 ---------------------------------------------------------------------------
 \* ---- construction of the case
